@@ -84,3 +84,44 @@ func init() {
 		},
 	}
 }
+
+func init() {
+	plans["C20"] = &plan{
+		level: "model_checking",
+		rule: "TLC enumerates every sequence of texts (items: clause of p/1 or q/1, dynamic/discontiguous/multifile declaration, initialization goal, directive, syntax fault, non-callable clause - " +
+			"hence a fault of each kind at every position) loaded one after the other; Loader.tla (stage / commit state machine; Invisible, AllOrNothing, SourceOrder, ReplaceUnlessMultifile, DirectivesInPlace " +
+			"checked in every state) predicts after each load the result class, the output order and the clause list of both predicates, which the replayer observes through Exec and by calling. " +
+			"distinct_nontrivial = distinct text sequences in which some load fails or replaces/extends an earlier definition",
+		assume:  []string{"include/1, ensure_loaded/1 and directives with database side effects are outside the property's quantifier"},
+		trusted: []string{"TLC", "Loader.tla"},
+		run: func(c *checkCtx) {
+			cfgs := []string{"Loader_23.cfg"}
+			if c.tier == "thorough" {
+				cfgs = []string{"Loader_33.cfg", "Loader_three.cfg"}
+			}
+			for _, cfg := range cfgs {
+				r := c.mcHolds("Loader", cfg, tlcOpts{})
+				cases, results := c.replay("loader", r.cases, replayOpts{})
+				c.judge("loader", cases, results, func(cs, res map[string]J) string {
+					obs := cs["obs"].([]J)
+					for i, o := range obs {
+						om := o.(map[string]J)
+						if om["err"] != "none" {
+							in, _ := res["input"].(string)
+							return in
+						}
+						if i > 0 {
+							prev := obs[i-1].(map[string]J)
+							if !jsonEqual(prev["p"], om["p"]) && len(prev["p"].(map[string]J)["cls"].([]J)) > 0 {
+								in, _ := res["input"].(string)
+								return in
+							}
+						}
+					}
+					return ""
+				})
+			}
+			c.exhaustive = true
+		},
+	}
+}
